@@ -72,7 +72,8 @@ def handle (args : List String) (impl : String) : R Ans :=
     | "fromu64", [v] => do
       let v ← nat v
       let model := match fromU64 c v with | some s => showK c s | none => "panic"
-      let verdict ← if c.K ≤ 32 ∧ v < 4 ^ c.K then vK c impl (KSpec.digits4 c.K v) else pure "ok"
+      -- K ≤ 32: ranks below 4^K; K > 32: any u64, the leading bases are A (documented)
+      let verdict ← if v < 4 ^ c.K ∧ v < 2 ^ 64 then vK c impl (KSpec.digits4 c.K v) else pure "ok"
       pure { model, verdict }
     | "ham", [x, y] => do
       let s ← st x; let t ← st y
